@@ -113,6 +113,25 @@ def split_lemma(ctx):
     return collapse(out, "C02.split", "Σ_blocks e_step(block) == e_step(whole) for every consecutive partition (+ and +=)")
 
 
+def rejoin_generic(tot, stats, nb, fields):
+    o = Obj(tot.cls, dict(tot.fields))
+    for f in fields:
+        v = tot.fields[f]
+        if isinstance(v, Arr):
+            def mk(f=f, v=v):
+                def fn(*idx):
+                    full = Sum(nb, lambda b: P(stats.elem(b).fields[f].fn(*idx)), "b")
+                    peeled = P(stats.elem(Poly.const(0)).fields[f].fn(*idx)) + Sum(nb - 1, lambda i: P(stats.elem(i + 1).fields[f].fn(*idx)), "b")
+                    return full if T.equal(P(v.fn(*idx)), peeled) else P(v.fn(*idx))
+                return Arr(v.shape, fn)
+            o.fields[f] = mk()
+        else:
+            full = Sum(nb, lambda b: P(stats.elem(b).fields[f]), "b")
+            peeled = P(stats.elem(Poly.const(0)).fields[f]) + Sum(nb - 1, lambda i: P(stats.elem(i + 1).fields[f]), "b")
+            o.fields[f] = full if T.equal(P(v), peeled) else v
+    return o
+
+
 def rejoin(tot, stats, nb):
     """tot = stats[0] + Σ_{i<B-1} stats[i+1]  ==  Σ_{b<B} stats[b]; apply the
     range-split axiom Σ_{b<B} f(b) = f(0) + Σ_{i<B-1} f(i+1) field by field (checked)"""
